@@ -660,10 +660,16 @@ func createListeners(addrs []string, opts ...Option) ([]*listener, *Options, err
 	for i, a := range addrs {
 		proto, addr, err := parseProtoAddr(a)
 		if err != nil {
+			for _, l := range listeners[:i] {
+				l.close()
+			}
 			return nil, nil, err
 		}
 		ln, err := initListener(proto, addr, options)
 		if err != nil {
+			for _, l := range listeners[:i] {
+				l.close()
+			}
 			return nil, nil, err
 		}
 		listeners[i] = ln
